@@ -432,3 +432,32 @@ func VP_C07_NilVotesCommitNothing() {
 	vp.Assert(vals.VerifyCommitLightTrusting(vpChainID, commit, tmmath.Fraction{Numerator: 1, Denominator: 3}) != nil, "C07.trusting.precommits-for-nil-commit-nothing")
 	vp.Reach("checked")
 }
+
+// C07-H1e: the fraction is of the set's real total power, also for a set decoded from a message:
+// whatever total the message claims, the decoded set's total is the sum of its members' powers.
+func VP_C07_DecodedSetTotal() {
+	n := 3
+	keys := make([]ed25519.PrivKey, n)
+	powers := make([]int64, n)
+	var sum int64
+	for i := range keys {
+		keys[i] = vpKey(i)
+		powers[i] = int64(vp.Range("power", 1, 3)) * 5
+		sum += powers[i]
+	}
+	vals := NewValidatorSet(vpValSetRaw(keys, powers).Validators)
+	pb, err := vals.ToProto()
+	if err != nil {
+		panic(err)
+	}
+	claimed := vp.Int64("claimed-total")
+	vp.Assume(vp.And(claimed >= 0, claimed <= 64))
+	pb.TotalVotingPower = claimed
+	got, err := ValidatorSetFromProto(pb)
+	if err != nil {
+		vp.Reach("refused?")
+		return
+	}
+	vp.Reach("decoded")
+	vp.Assert(got.TotalVotingPower() == sum, "C07.decoded-set-total-is-the-sum-of-its-members'-powers")
+}
